@@ -107,6 +107,9 @@ def run(P, rep, tier):
     r1716(P, rep)
     r1717(P, rep)
     r1718(P, rep)
+    r1719(P, rep)
+    r1720(P, rep)
+    r1721(P, rep)
 
 # ------------------------------------------------------------------ R17.17: a name is found under exactly its spelling ---
 _BYTE_CMP = ('strncmp', 'memcmp')
@@ -586,6 +589,7 @@ def r1715(P, rep):
     from ..lib_c17_memo import MemoKeys, describe, slug, recognised
     rep.rule('R17.15', 'the key written by every writer of a memo table is the key its reader looks up: each get/put/delete on a static table that is not keyed by token spelling passes a value that carries the string the reader function looks up under its own parameter - that parameter, a parameter it is handed to down a call chain, or a record field all of whose stores in the program store that string (set at creation, never rewritten)', floor=4)
     M = MemoKeys(P)
+    P._c17_memo_keys = M
     tabs = M.table_accesses()
     ntab = 0
     for tid in sorted(tabs, key=lambda t: (t[0], t[1] or '')):
@@ -659,6 +663,40 @@ def r1715(P, rep):
                 rep.undecided('R17.15', '%s:%s:%s:%s-key/%s' % (un, f, tname, op, slug(o)), what + '; the analysis cannot tell whether the two are the same string', where=where)
     if ntab < 2:
         rep.undecided('R17.15', 'preprocess.c:memo-tables', 'only %d memo table(s) (static HashMap with a reader and a writer, not keyed by token spelling) found: the include memo tables are not recognised any more' % ntab)
+
+
+def r1719(P, rep):
+    """a memo table keyed through a key function g(path) (file_key) is a dictionary of FILES only if g's result is an injective function of the file that
+    open(path) reads: the file-system query follows symbolic links like open() does (never lstat), is made on g's own parameter, its record is read only
+    where the query succeeded, and the key holds the complete identity (st_dev, st_ino) at full width with the numbers kept apart"""
+    from ..lib_c17_memo import MemoKeys
+    from ..lib_c17_ident import key_function_facts
+    rep.rule('R17.19', 'a function that turns a path into the key of a memo table derives the identity of the file open() will read: its file-system query follows symbolic links (stat/fstat, never lstat/readlink/AT_SYMLINK_NOFOLLOW), asks about the function\'s own parameter, the record is read only where the query succeeded and from the record that query filled, and the key contains both st_dev and st_ino at full width, separated by literal text - so one file has one key under all its names and two files never share one', floor=4)
+    M = getattr(P, '_c17_memo_keys', None) or MemoKeys(P)
+    tabs = M.table_accesses()
+    gs = {}
+    for tid, acc in tabs.items():
+        for a in acc:
+            g, _ = _peel_key_function(M, a[2], a[4])
+            if g is not None:
+                gs.setdefault(g, a)
+    if not gs:
+        rep.undecided('R17.19', 'preprocess.c:key-functions', 'no table access passes its key through a key function any more: the include memo tables are keyed in a way this rule does not recognise')
+        return
+    for g in sorted(gs):
+        un = M.fn[g][0]
+        seen = set()
+        for (construct, ok, msg, node) in key_function_facts(M, g):
+            key = '%s:%s:%s' % (un, g, construct)
+            where = '%s:%d' % (un, node.line)
+            if ok is None:
+                if key not in seen:
+                    rep.undecided('R17.19', key, msg, where=where)
+            elif ok and key in seen:
+                continue
+            else:
+                rep.ob('R17.19', key, ok, msg, where=where)
+            seen.add(key)
 
 
 def r1711(P, rep):
@@ -1568,3 +1606,67 @@ def r179(P, rep):
                 rep.ob('R17.9', 'main.c:define:plain-name-defined-as-1', vkey(a[0]) == ('sym', 'str') and a[1] == '1', '`-Dname` does not define `name` as 1 (define_macro%r)' % (tuple(a),), where='main.c:%d' % mu.fn('define').line)
         if not split or not plain:
             rep.undecided('R17.9', 'main.c:define:shape', 'define() has no path for an argument %s `=`' % ('with' if not split else 'without'))
+
+
+def r1720(P, rep):
+    """a declaration is a write to the dictionary of the current scope: "after a declaration of N in scope S, a lookup of N from S answers that declaration"
+    needs the insertion on EVERY path on which the declaring function completes the declarator, not on some.  Must-analysis over the structured code
+    of parse.c (lib_c17_decl): from each declarator() whose identifier the function enters somewhere, every path enters it before it returns, starts the
+    next declarator or changes the current scope - unless the path has established that a table lookup of the identifier hit AND that the current
+    scope is the only scope of the chain (then the binding found IS the current scope's binding: a file-scope redeclaration of a function)"""
+    from ..lib_c17_decl import DeclFlow
+    rep.rule('R17.20', 'after a declaration of an identifier in scope S a lookup from S answers that declaration, on every path: in each function of parse.c that hands the name of a declarator() result to an insertion into the current scope, every path from the declarator to the return / the next declarator / a change of the current scope performs such an insertion, or has established both that a scope-table lookup of the identifier hit and that the current scope has no enclosing scope; a helper that enters its name parameter on some path enters it on all', floor=6)
+    U2 = 'parse.c'
+    pu = P.unit(U2)
+    S = L.ScopeTables(pu)
+    DF = DeclFlow(S)
+    HOW = {'return': 'returns', 'next-declarator': 'goes on to the next declarator', 'end-of-iteration': 'goes on to the next declarator (end of the loop iteration)', 'scope-change': 'changes the current scope'}
+    for f in sorted(DF.may_enter):
+        fd = pu.fn(f)
+        ps = S._params[f]
+        for i in sorted(DF.may_enter[f]):
+            pname = S._decl[f][ps[i]].name if i < len(ps) else '?'
+            rep.ob('R17.20', '%s:%s:enters-parameter-%s-on-every-path' % (U2, f, pname), i in DF.entering.get(f, ()) or i in DF.entering_unless_outermost.get(f, ()),
+                   '%s() enters the name `%s` into the current scope\'s table on some paths only: a declaration made through it is sometimes not recorded, and the identifier keeps denoting what an enclosing scope (or an earlier declaration) bound it to' % (f, pname),
+                   where='%s:%d' % (U2, fd.line))
+    decl = DF.declaring()
+    for f in sorted(decl):
+        fd = pu.fn(f)
+        where = '%s:%d' % (U2, fd.line)
+        r = DF.flow(f, 'declare', declared=decl[f])
+        if r == 'goto' or r is None:
+            rep.undecided('R17.20', '%s:%s:declared-identifier-entered' % (U2, f), 'the function uses goto (or has no body): the structured must-analysis does not apply', where=where)
+            continue
+        kinds = {}
+        for how, node, D in r:
+            kinds.setdefault(how, node)
+        rep.ob('R17.20', '%s:%s:declared-identifier-entered-on-every-path' % (U2, f), not kinds,
+               '%s() completes a declarator and on some path %s without having entered the identifier into the current scope' % (f, ' / '.join(HOW[h] for h in sorted(kinds))), where=where)
+        for how, node in sorted(kinds.items(), key=lambda x: x[0]):
+            rep.ob('R17.20', '%s:%s:declaration-not-entered-before/%s' % (U2, f, how), False,
+                   'on a path of %s() that completes a declarator the function %s and the identifier has not been entered into the table of the current scope (the insertion is conditional on something else than '
+                   '"a lookup of this identifier hit and the current scope has no enclosing scope"): after the declaration a lookup from this scope still answers an older binding of the name - '
+                   '`int f(int x){return x+1;} int g(int f){ {int f(int); return f(1);} }` calls through the parameter - the most recent declaration does not win' % (f, HOW[how]),
+                   where='%s:%d' % (U2, node.line))
+    if len(decl) < 3:
+        rep.undecided('R17.20', '%s:declaring-functions' % U2, 'only %d function(s) found that enter the name of a declarator() result into the current scope (%s): the declaring functions are not recognised any more' % (len(decl), ', '.join(sorted(decl))))
+
+
+def r1721(P, rep):
+    """the history of the macro table is the sequence of #define/#undef lines: an operation whose name is not on the directive's own line is an operation
+    that no directive of the source names.  A directive ends with its line; `#define` / `#undef` / `#ifdef` / `#ifndef` with nothing after the directive
+    name must be diagnosed, not applied to the first token of the next line (lib_c17_dirname: the dispatcher explored on `# d` <newline> `M y`)"""
+    from ..lib_c17_dirname import directive_name_facts
+    rep.rule('R17.21', 'the macro name that #define enters, #undef deletes and #ifdef/#ifndef look up is a token of the directive\'s own line: on `#define` / `#undef` / `#ifdef` / `#ifndef` followed directly by a newline every path of the dispatcher ends in a diagnostic, none hands the first token of the next line (or its spelling) to read_macro_definition / undef_macro / find_macro or to a table operation', floor=4)
+    u = P.unit('preprocess.c')
+
+    def go():
+        for d, construct, ok, msg, line in directive_name_facts(P, u):
+            key = 'preprocess.c:preprocess2:%s-%s' % (d, construct)
+            where = 'preprocess.c:%d' % line
+            if ok is None:
+                rep.undecided('R17.21', key, msg, where=where)
+            else:
+                rep.ob('R17.21', key, ok, msg, where=where)
+        return True
+    _borrow(rep, 'R17.21', 'preprocess.c:preprocess2:directive-name', go)
